@@ -2,10 +2,12 @@
 from __future__ import annotations
 
 import ast
+import re
 
 from .. import astq, codec, reference, smf, wire
 from ..absint import AList, AObj, Opaque, SeqVar, AbsRaise
 from ..bits import AV, Sym
+from ..fold import ClassRef
 from ..intset import IntSet
 from ..model import AnalysisError, unparse
 from ..wire import AFile, Field, StrSym, VLQ
@@ -178,22 +180,35 @@ def r08_clip(ctx):
             want = [smf.Ev('message', 'sysex', {'data': AList([exp0, D[1]], 'tuple')}, t), smf.Ev('meta', 'end_of_track', {}, 0)]
             read_reference(ctx, ai, name, [], 'R08.5', clip=clip, want=want, stream=stream)
     ctx.floor('R08.5', n, 16)
-    # clip flows from MidiFile to the readers
+    # clip flows from the MidiFile constructor to the readers: whole files loaded through MidiFile(file=..., clip=...)
     cls = ctx.p.cls(smf.MF, 'MidiFile')
     o, load = ctx.p.lookup_method(cls, '_load')
     ctx.fn(load)
-    ok = False
-    for c in astq.calls(load.node):
-        if astq.callee_qname(ctx.p, load, c) == 'mido/midifiles/midifiles.py::read_track':
-            ctx.call_sites += 1
-            cv = astq.arg_or_kw(c, 2, 'clip')
-            ok = cv is not None and unparse(cv) == 'self.clip'
-    ctx.require(ok, 'R08.5', '_load.clip', ctx.where(load), '_load does not pass clip=self.clip to read_track', construct=f'{load.qname}::clip')
-    init = cls.methods.get('__init__')
-    ctx.fn(init)
-    st = [s for t_, s in astq.stores_in(init.node) if unparse(t_) == 'self.clip']
-    ctx.require(len(st) == 1 and unparse(st[0].value) == 'clip', 'R08.5', '__init__.clip', ctx.where(init),
-                'MidiFile.__init__ does not store its clip argument', construct=f'{init.qname}::clip')
+    ai.builtin_summaries['print'] = lambda i_, a_, k_, n_: None
+    x = smf.sym('x', 111, 128)
+    body = [VLQ(t), 0x95, x, 64, VLQ(0), 0xff, 0x2f, VLQ(0)]
+    stream = [Field('4s', b'MThd'), Field('L', 6), Field('h', 1), Field('h', 1), Field('h', 480), Field('4s', b'MTrk'), Field('L', wire.size_of(body))] + body
+    for clip in (False, True, None):
+        kw = {'file': None}
+        if clip is not None:
+            kw['clip'] = clip
+
+        def thunk():
+            k2 = dict(kw)
+            k2['file'] = wire.AFile(stream=list(stream), name='in')
+            return ai.apply(ClassRef(cls), [], k2, None)
+        outs = ai.explore(thunk)
+        inst = f'MidiFile(file=<data byte 128..239>, clip={clip})'
+        if clip:
+            ok = len(outs) == 1 and outs[0].kind == 'return'
+            if ok:
+                tr = outs[0].value.attrs.get('tracks')
+                first = tr.items[0].items[0] if isinstance(tr, AList) and tr.items and isinstance(tr.items[0], AList) and tr.items[0].items else None
+                ok = isinstance(first, AObj) and first.attrs.get('note') == 127 and first.attrs.get('velocity') == 64
+            ctx.require(ok, 'R08.5', inst, ctx.where(load), f'with clip=True the byte must load as 127: {outs}', construct=f'{load.qname}::clip')
+        else:
+            ok = bool(outs) and all(o_.kind == 'raise' for o_ in outs)
+            ctx.require(ok, 'R08.5', inst, ctx.where(load), f'without clip the file must be rejected: {outs}', construct=f'{load.qname}::clip')
 
 
 def _vlq_values():
@@ -322,6 +337,9 @@ def r08_header(ctx):
 
 
 def r08_debug(ctx):
+    """The debug wrapper is a transparent observer: its read()/tell() hand through exactly what the wrapped file gives (one
+    read of the requested size, nothing consumed besides), and loading whole files with debug=True gives the same tracks -
+    or the same rejection - as with debug=False."""
     cls = ctx.p.cls(smf.MF, 'DebugFileWrapper')
     rd = cls.methods.get('read')
     tl = cls.methods.get('tell')
@@ -329,52 +347,60 @@ def r08_debug(ctx):
         raise AnalysisError('DebugFileWrapper.read/tell not found')
     ctx.fn(rd)
     ctx.fn(tl)
-    reads = [c for c in astq.calls(rd.node) if unparse(c.func) == 'self.file.read']
-    rets = [n for n in astq.walk_shallow(rd.node) if isinstance(n, ast.Return)]
-    ok = len(reads) == 1 and len(reads[0].args) == 1 and unparse(reads[0].args[0]) == rd.params()[1] and len(rets) == 1
-    if ok:
-        # returned name is the one assigned from the read
-        asg = [s for t, s in astq.stores_in(rd.node) if isinstance(s, ast.Assign) and s.value is reads[0]]
-        ok = len(asg) == 1 and isinstance(rets[0].value, ast.Name) and unparse(asg[0].targets[0]) == rets[0].value.id
-        if ok:
-            nm = rets[0].value.id
-            ok = sum(1 for t, s in astq.stores_in(rd.node) if isinstance(t, ast.Name) and t.id == nm) == 1
-    ctx.require(ok, 'R08.6', 'DebugFileWrapper.read', ctx.where(rd),
-                'the debug wrapper does not return exactly the result of one self.file.read(size)', construct=f'{rd.qname}::transparent')
-    rets = [n for n in astq.walk_shallow(tl.node) if isinstance(n, ast.Return)]
-    ctx.require(len(rets) == 1 and unparse(rets[0].value) == 'self.file.tell()', 'R08.6', 'DebugFileWrapper.tell', ctx.where(tl),
-                'tell() does not delegate to the wrapped file', construct=f'{tl.qname}::transparent')
-    # the debug helpers only print; `if debug` blocks contain nothing else
-    m = ctx.p.module(smf.MF)
-    for fname in ('_dbg', 'print_byte'):
-        f = m.functions.get(fname)
-        if f is None:
-            continue
-        ctx.fn(f)
-        bad = [c for c in astq.calls(f.node) if astq.callee_qname(ctx.p, f, c) not in ('print', 'chr') and
-               not (isinstance(c.func, ast.Attribute) and c.func.attr in ('isspace', 'format'))]
-        st = [s for t, s in astq.stores_in(f.node) if not isinstance(t, ast.Name)]
-        ctx.require(not bad and not st, 'R08.6', f'{fname}.observer', ctx.where(f), f'{fname} does more than print: {[unparse(b) for b in bad]}',
-                    construct=f'{f.qname}::observer')
+    ai = strict_interp(ctx)
+    ai.builtin_summaries['print'] = lambda i_, a_, k_, n_: None
     n = 0
-    for f in list(m.functions.values()) + [x for c in m.classes.values() for x in c.methods.values()]:
-        for node in astq.walk_shallow(f.node):
-            if isinstance(node, ast.If) and unparse(node.test) in ('debug', 'self.debug') and not node.orelse:
-                n += 1
-                body_ok = True
-                for s in node.body:
-                    if isinstance(s, ast.Expr) and isinstance(s.value, ast.Call) and \
-                            astq.callee_qname(ctx.p, f, s.value) in ('mido/midifiles/midifiles.py::_dbg', 'print'):
-                        # arguments must not read from the file
-                        if any(isinstance(c.func, ast.Attribute) and c.func.attr in ('read', 'write', 'seek') for c in astq.calls(s.value)):
-                            body_ok = False
-                        continue
-                    if isinstance(s, ast.Assign) and unparse(s.value).startswith('DebugFileWrapper(') and f.name == '_load':
-                        continue
-                    body_ok = False
-                ctx.require(body_ok, 'R08.6', f'{f.name}.debug-block@{node.lineno}', ctx.where(f, node),
-                            'an `if debug` block does more than print', construct=f'{f.qname}::debug-block({unparse(node.body[0])[:30]})')
-    ctx.floor('R08.6', n, 6)
+    b = [smf.sym(f'b{i}', 255) for i in range(6)]
+    for size in (1, 3, 6, 8):
+        holder = {}
+
+        def thunk():
+            inner = wire.AFile(stream=list(b), name='in')
+            holder['inner'] = inner
+            wrapper = ai.apply(ClassRef(cls), [inner], {}, None)
+            got = ai.call_function(rd, [wrapper, size], {})
+            pos = ai.call_function(tl, [wrapper], {})
+            return got, pos
+        outs = ai.explore(thunk)
+        n += 1
+        ok = len(outs) == 1 and outs[0].kind == 'return'
+        why = f'{outs}'
+        if ok:
+            got, pos = outs[0].value
+            inner = holder['inner']
+            want = b[:size]
+            items = list(got.items) if isinstance(got, AList) else []
+            ok = len(items) == len(want) and all(x_ is y_ for x_, y_ in zip(items, want)) and inner.pos == min(size, len(b)) \
+                and len(inner.reads) == 1 and pos == inner.consumed_len()
+            why = f'read({size}) on a 6 byte file returns {got!r} after {len(inner.reads)} read(s) of the wrapped file, position {inner.pos}, tell() = {pos!r}'
+        ctx.require(ok, 'R08.6', f'DebugFileWrapper.read({size})', ctx.where(rd), why, construct=f'{rd.qname}::transparent')
+    # whole files, debug on and off
+    mf = ctx.p.cls(smf.MF, 'MidiFile')
+    o, load = ctx.p.lookup_method(mf, '_load')
+    T = wire.StrSym('T')
+    t = smf.tsym('t')
+    good = [VLQ(t), 0xff, 0x03, VLQ(wire.size_of([T.bytes])), T.bytes, VLQ(5), 0x93, smf.sym('n', 127), smf.sym('v', 127), VLQ(0), smf.sym('n2', 127), 0,
+            VLQ(1), 0xf0, VLQ(smf._plus1(wire.size_of([SeqVar('X', 127)]))), SeqVar('X', 127), 0xf7, VLQ(0), 0xff, 0x2f, VLQ(0)]
+    bad = [VLQ(t), 0x93, smf.sym('hi', 100, 130), 1]
+    for label, body in (('text, running status, sysex', good), ('invalid data byte', bad), ('truncated', good[:7])):
+        res = {}
+        for debug in (False, True):
+            ai.wrapped_reads = 0
+
+            def thunk2():
+                claimed = wire.size_of(body) if label != 'truncated' else wire.size_of(body + [SeqVar('missing', 255, minlen=1)])
+                stream = [Field('4s', b'MThd'), Field('L', 6), Field('h', 1), Field('h', 1), Field('h', 480), Field('4s', b'MTrk'), Field('L', claimed)] + list(body)
+                return ai.apply(ClassRef(mf), [], {'file': wire.AFile(stream=stream, name='in'), 'debug': debug}, None)
+            outs = ai.explore(thunk2)
+            res[debug] = sorted(('return ' + re.sub(r'#\d+', '', repr(o_.value.attrs.get('tracks')))) if o_.kind == 'return' else f'raise {o_.exc}' for o_ in outs)
+            res[debug, 'wrapped'] = ai.wrapped_reads
+        n += 1
+        ctx.require(res[False] == res[True] and res[True, 'wrapped'] > 0 and res[False, 'wrapped'] == 0, 'R08.6', f'MidiFile(file=<{label}>, debug=True)',
+                    ctx.where(load), f'debug=False gives {res[False]}; debug=True gives {res[True]} ({res[True, "wrapped"]} reads through the wrapper)',
+                    construct=f'{load.qname}::debug')
+    ctx.floor('R08.6', n, 7)
+    for q in ai.inlined:
+        ctx.functions.add(q)
 
 
 def r08_induction(ctx):
